@@ -27,7 +27,7 @@ func checkC12(c *Check) {
 	// the skeleton buffer = receiver of the String() call fed to Replace / returned
 	var buf ssa.Value
 	allInstrs(up, func(in ssa.Instruction) {
-		if cl, ok := in.(*ssa.Call); ok && callName(&cl.Call) == "(*bytes.Buffer).String" {
+		if cl, ok := in.(*ssa.Call); ok && (callName(&cl.Call) == "(*bytes.Buffer).String" || callName(&cl.Call) == "(*strings.Builder).String") {
 			buf = strip(cl.Call.Args[0])
 		}
 	})
@@ -36,10 +36,13 @@ func checkC12(c *Check) {
 		c.Undecided(key+":skeleton", p.FuncPos(up), "no skeleton buffer found")
 		return
 	}
-	var writes []ssa.CallInstruction
+	// one entry per piece of text written: "{" + name + "}" in one call counts as three
+	var writes []skelWrite
 	allInstrs(up, func(in ssa.Instruction) {
-		if ci, ok := in.(ssa.CallInstruction); ok && strings.HasPrefix(callName(ci.Common()), "(*bytes.Buffer).Write") && strip(ci.Common().Args[0]) == buf {
-			writes = append(writes, ci)
+		if ci, ok := in.(ssa.CallInstruction); ok && (strings.HasPrefix(callName(ci.Common()), "(*bytes.Buffer).Write") || strings.HasPrefix(callName(ci.Common()), "(*strings.Builder).Write")) && strip(ci.Common().Args[0]) == buf {
+			for _, part := range concatParts(ci.Common().Args[1]) {
+				writes = append(writes, skelWrite{ci, part})
+			}
 		}
 	})
 
@@ -61,7 +64,7 @@ func checkC12(c *Check) {
 		// skeleton side
 		found := false
 		for _, w := range writes {
-			arg := w.Common().Args[1]
+			arg := w.arg
 			r, ns, ok := fieldPath(arg)
 			if !ok || ns[len(ns)-1] != "Ident" {
 				continue
@@ -73,7 +76,7 @@ func checkC12(c *Check) {
 			if namedName(derefT(r.Type())) != "BindParameter" {
 				// direct Parameters[k].Ident
 				found = true
-				c.Bad(key+":bind-list", p.Pos(w.Pos()), "only a fixed parameter of the list is emitted ("+vstr(arg)+"): for \"/{a: /x/, b: /y/}\" the bind b is lost and URLPath no longer inverts matching")
+				c.Bad(key+":bind-list", p.Pos(w.ci.Pos()), "only a fixed parameter of the list is emitted ("+vstr(arg)+"): for \"/{a: /x/, b: /y/}\" the bind b is lost and URLPath no longer inverts matching")
 				continue
 			}
 			found = true
@@ -85,7 +88,7 @@ func checkC12(c *Check) {
 				}
 			}
 			if list == nil {
-				c.Bad(key+":bind-list", p.Pos(w.Pos()), "the emitted parameter is not an element of a loop over the parameter list")
+				c.Bad(key+":bind-list", p.Pos(w.ci.Pos()), "the emitted parameter is not an element of a loop over the parameter list")
 				continue
 			}
 			okAll := true
@@ -96,7 +99,7 @@ func checkC12(c *Check) {
 				if full(l) {
 					return
 				}
-				if sl, ok := l.(*ssa.Slice); ok && full(sl.X) && sl.Low == nil {
+				if sl, ok := l.(*ssa.Slice); ok && full(sl.X) && (sl.Low == nil || vConstInt(0)(sl.Low)) {
 					if k, isC := constInt(sl.High); isC && k == 1 && lphi != nil {
 						// allowed only when the first parameter is not a regex (match-all element)
 						first := func(v ssa.Value) bool {
@@ -104,8 +107,19 @@ func checkC12(c *Check) {
 							if !ok || len(nn) < 2 || nn[len(nn)-1] != "Regex" || nn[len(nn)-2] != "Value" {
 								return false
 							}
-							ia, ok := rr.(*ssa.IndexAddr)
-							return ok && vConstInt(0)(ia.Index)
+							if ia, ok := rr.(*ssa.IndexAddr); ok {
+								return vConstInt(0)(ia.Index)
+							}
+							// first := parameters[0] (a local copy of the element)
+							if al, ok := rr.(*ssa.Alloc); ok {
+								sts := cellStores(al, 0)
+								if len(sts) == 1 {
+									if i, ok := elemIndex(sts[0].Val, vAny); ok && vConstInt(0)(i) {
+										return true
+									}
+								}
+							}
+							return false
 						}
 						g := edgesWhere(up, cCmp(token.EQL, first, vNil), true)
 						for i, e := range lphi.Edges {
@@ -127,13 +141,13 @@ func checkC12(c *Check) {
 					}
 				}
 				if elemLoad != nil {
-					in, _ := Query{Fn: up, Avoid: isInstr(w)}.After(elemLoad, func(x ssa.Instruction) bool { return x == elemLoad || isReturn(x) })
+					in, _ := Query{Fn: up, Avoid: isInstr(w.ci)}.After(elemLoad, func(x ssa.Instruction) bool { return x == elemLoad || isReturn(x) })
 					if in != nil {
 						okAll, why = false, "an element of the parameter list can be skipped inside the loop (a per-name or per-kind filter decides which parameters are binds)"
 					}
 				}
 			}
-			c.Cond(okAll, key+":bind-list", p.Pos(w.Pos()), "{name} emitted for every parameter; truncated to the first only when Parameters[0] is not a regex", "the URL skeleton does not cover the binds of a parameter list: "+why)
+			c.Cond(okAll, key+":bind-list", p.Pos(w.ci.Pos()), "{name} emitted for every parameter; truncated to the first only when Parameters[0] is not a regex", "the URL skeleton does not cover the binds of a parameter list: "+why)
 		}
 		if !found {
 			c.Bad(key+":bind-list", p.FuncPos(up), "no {name} is emitted for elements with a parameter list")
@@ -145,10 +159,10 @@ func checkC12(c *Check) {
 	{
 		bad := false
 		for _, w := range writes {
-			arg := w.Common().Args[1]
+			arg := w.arg
 			if derivesFrom(arg, vOr(vFieldNamed("Regex"), vFieldNamed("Literal")), nil) {
 				bad = true
-				c.Bad(key+":annotation", p.Pos(w.Pos()), "annotation text flows into the URL skeleton: "+vstr(arg))
+				c.Bad(key+":annotation", p.Pos(w.ci.Pos()), "annotation text flows into the URL skeleton: "+vstr(arg))
 			}
 		}
 		if !bad {
@@ -174,7 +188,7 @@ func checkC12(c *Check) {
 		allInstrs(up, func(in ssa.Instruction) {
 			if r, ok := in.(*ssa.Return); ok && len(r.Results) == 1 {
 				if cl := asCall(r.Results[0]); cl != nil && callName(&cl.Call) == "(*strings.Replacer).Replace" {
-					if nr := asCall(cl.Call.Args[0]); nr != nil && callName(&nr.Call) == "strings.NewReplacer" && vCall("(*bytes.Buffer).String", vIs(buf))(cl.Call.Args[1]) {
+					if nr := asCall(cl.Call.Args[0]); nr != nil && callName(&nr.Call) == "strings.NewReplacer" && vOr(vCall("(*bytes.Buffer).String", vIs(buf)), vCall("(*strings.Builder).String", vIs(buf)))(cl.Call.Args[1]) {
 						okRet = true
 						pairs = nr.Call.Args[0]
 					}
@@ -183,6 +197,52 @@ func checkC12(c *Check) {
 		})
 		if !seq {
 			c.Cond(okRet, key+":one-pass", p.FuncPos(up), "return NewReplacer(pairs...).Replace(skeleton)", "the result is not a single Replacer pass over the skeleton")
+		}
+		// every result is that pass, and what it scans is a skeleton: constants and names taken from
+		// the route, never text that already contains supplied values
+		{
+			okEvery := true
+			allInstrs(up, func(in ssa.Instruction) {
+				if r, ok := in.(*ssa.Return); ok && len(r.Results) == 1 {
+					cl := asCall(r.Results[0])
+					if cl == nil || callName(&cl.Call) != "(*strings.Replacer).Replace" {
+						okEvery = false
+					}
+				}
+			})
+			pure := true
+			var badW skelWrite
+			for _, w := range writes {
+				arg := strip(w.arg)
+				if _, isC := arg.(*ssa.Const); isC {
+					continue
+				}
+				x := arg
+				for i := 0; i < 2; i++ {
+					if u, isU := x.(*ssa.UnOp); isU && u.Op == token.MUL {
+						x = u.X
+					}
+				}
+				if fa, isFA := x.(*ssa.FieldAddr); isFA {
+					if n := fieldOf(fa).Name(); n == "Ident" || n == "BindIdent" {
+						continue
+					}
+				}
+				if f, isF := x.(*ssa.Field); isF {
+					if n := fieldOf(f).Name(); n == "Ident" || n == "BindIdent" {
+						continue
+					}
+				}
+				pure, badW = false, w
+			}
+			switch {
+			case !okEvery:
+				c.Bad(key+":skeleton-only", p.FuncPos(up), "URLPath has a result that is not the single Replacer pass (e.g. text produced by another URLPath call is returned or extended)")
+			case !pure:
+				c.Bad(key+":skeleton-only", p.Pos(badW.ci.Pos()), "text other than constants and route names is written into the string the Replacer scans ("+vstr(badW.arg)+"): values substituted earlier are scanned again")
+			default:
+				c.OK(key+":skeleton-only", p.FuncPos(up), "the Replacer scans constants and route names only; every result is its output", len(writes))
+			}
 		}
 		if pairs != nil {
 			// pairs = φ(fresh, append(pairs, "{"+k+"}", v)) over range vals
@@ -254,7 +314,7 @@ func checkC12(c *Check) {
 			g := union(edgesWhere(up, cBool(vField(vIs(seg), "Optional")), false), edgesWhere(up, cBool(vParam(up, 2)), true))
 			bad := ""
 			for _, w := range writes {
-				if ok, path := guardedBy(up, g, isInstr(w)); !ok {
+				if ok, path := guardedBy(up, g, isInstr(w.ci)); !ok {
 					bad = path
 				}
 			}
@@ -302,12 +362,19 @@ func checkC12(c *Check) {
 				// withOptional
 				flag := call.Common().Args[1]
 				isWO := cCmp(token.EQL, func(v ssa.Value) bool {
-					l, ok := strip(v).(*ssa.Lookup)
+					v = strip(v)
+					if e, isE := v.(*ssa.Extract); isE && e.Index == 0 {
+						v = e.Tuple
+					}
+					l, ok := v.(*ssa.Lookup)
 					return ok && strip(l.X) == ssa.Value(mm) && vConstStr("withOptional")(l.Index)
 				}, vConstStr("true"))
 				on := edgesWhere(ru, isWO, true)
 				okFlag := false
-				if ph, ok := strip(flag).(*ssa.Phi); ok && len(on) > 0 {
+				if m, pos := isWO(strip(flag)); m && pos {
+					// withOptional := vals["withOptional"] == "true"
+					okFlag = true
+				} else if ph, ok := strip(flag).(*ssa.Phi); ok && len(on) > 0 {
 					okFlag = true
 					for i, e := range ph.Edges {
 						if vConstBool(true)(e) {
@@ -325,6 +392,12 @@ func checkC12(c *Check) {
 					return ok && callName(ci.Common()) == "builtin.delete" && strip(ci.Common().Args[0]) == ssa.Value(mm) && vConstStr("withOptional")(ci.Common().Args[1])
 				}
 				okDel := len(on) > 0
+				if len(on) == 0 && okFlag {
+					// flag computed directly: the key must be deleted on every path to the call
+					if in, _ := (Query{Fn: ru, Avoid: isDel}).FromEntry(isInstr(call)); in == nil {
+						okDel = true
+					}
+				}
 				for e := range on {
 					if in, _ := (Query{Fn: ru, Avoid: isDel}).Reach(e.B.Succs[e.S], 0, isInstr(call)); in != nil {
 						okDel = false
@@ -349,7 +422,7 @@ func checkC12(c *Check) {
 		if store == nil {
 			c.Bad(k+":store", p.FuncPos(nm), "Name() never records the route")
 		} else {
-			nonEmpty := edgesWhere(nm, cCmp(token.EQL, vParam(nm, 1), vConstStr("")), false)
+			nonEmpty := edgesWhere(nm, cEmptyStr(vParam(nm, 1)), false)
 			absent := edgesWhere(nm, cBool(func(v ssa.Value) bool {
 				e, ok := strip(v).(*ssa.Extract)
 				if !ok || e.Index != 1 {
@@ -427,4 +500,9 @@ func checkPairsMapPlain(c *Check, fn *ssa.Function, mm *ssa.MakeMap, key string)
 	if n == 0 {
 		c.Bad(key+":pairs", p.FuncPos(fn), "the values map is never filled")
 	}
+}
+
+type skelWrite struct {
+	ci  ssa.CallInstruction
+	arg ssa.Value
 }
